@@ -21,16 +21,18 @@ import (
 )
 
 type rw struct {
-	Sync       bool     `json:"sync"`
-	Atomic     bool     `json:"atomic"`
-	Go         bool     `json:"go"`
-	Chan       bool     `json:"chan"`
-	Time       bool     `json:"time"`
-	OS         bool     `json:"os"`
-	Files      []string `json:"files"`       // empty = all non-test files
-	SyncKeep   []string `json:"sync_keep"`   // struct type names whose sync.* fields stay REAL (leaf locks of caches: invisible to the scheduler)
-	RangeChans []string `json:"range_chans"` // printed expressions of channels ranged over (no type info available)
-	Points     []point  `json:"points"`      // named scheduling points inserted before a statement matching text
+	Sync       bool              `json:"sync"`
+	Atomic     bool              `json:"atomic"`
+	Go         bool              `json:"go"`
+	Chan       bool              `json:"chan"`
+	Time       bool              `json:"time"`
+	OS         bool              `json:"os"`
+	Files      []string          `json:"files"`          // empty = all non-test files
+	SQL        bool              `json:"sql"`            // swap database/sql for the vsql shim (models the connection pool)
+	ConstSet   map[string]string `json:"const_override"` // package-level const name -> replacement literal (test-time parameter, e.g. hash iterations)
+	SyncKeep   []string          `json:"sync_keep"`      // struct type names whose sync.* fields stay REAL (leaf locks of caches: invisible to the scheduler)
+	RangeChans []string          `json:"range_chans"`    // printed expressions of channels ranged over (no type info available)
+	Points     []point           `json:"points"`         // named scheduling points inserted before a statement matching text
 }
 
 type point struct {
@@ -49,6 +51,8 @@ type cfg struct {
 
 const repo = "/repo"
 const harness = "/verif/harness"
+
+var constHits map[string]int
 
 func die(format string, a ...any) {
 	fmt.Printf("HARNESS-UNBOUND: overlaygen: "+format+"\n", a...)
@@ -71,6 +75,7 @@ func main() {
 	os.RemoveAll(*work)
 	os.MkdirAll(*work, 0o755)
 	replace := map[string]string{}
+	constHits = map[string]int{}
 	for pkg, files := range c.Add {
 		if st, err := os.Stat(filepath.Join(repo, pkg)); err != nil || !st.IsDir() {
 			die("package dir %s missing", pkg)
@@ -119,7 +124,7 @@ func main() {
 			seen[n] = true
 			src := filepath.Join(dir, n)
 			outp := filepath.Join(*work, strings.ReplaceAll(pkg, "/", "_")+"__"+n)
-			changed, err := rewriteFile(src, outp, r, pointHits)
+			changed, err := rewriteFile(src, outp, r, pointHits, pkg)
 			if err != nil {
 				die("rewrite %s: %v", src, err)
 			}
@@ -130,6 +135,11 @@ func main() {
 		for f := range want {
 			if !seen[f] {
 				die("rewrite file %s/%s missing", pkg, f)
+			}
+		}
+		for name := range r.ConstSet {
+			if constHits[pkg+"."+name] != 1 {
+				die("const_override %s in %s: %d matches, want 1", name, pkg, constHits[pkg+"."+name])
 			}
 		}
 		for i, p := range r.Points {
